@@ -40,6 +40,28 @@ var c16Sinks = map[string]bool{
 	"bytes.Buffer.Write": true, "bytes.Buffer.WriteString": true, "os.File.Write": true, "os.File.WriteString": true,
 }
 
+// c16Writes: the call produces output (a sink other than the construction of an error), itself
+// or - for a static call to a function of package pkg - somewhere below it.
+func c16Writes(ci ssa.CallInstruction, pkg string, seen map[*ssa.Function]bool) bool {
+	call := ci.Common()
+	if n := callName(call); c16Sinks[n] {
+		return n != "errors.New" && n != "fmt.Errorf"
+	}
+	callee := call.StaticCallee()
+	if callee == nil || callee.Blocks == nil || pkgRel(callee) != pkg || seen[callee] {
+		return false
+	}
+	seen[callee] = true
+	for _, fn := range withClosures(callee) {
+		for _, in := range allCalls(fn) {
+			if c16Writes(in, pkg, seen) {
+				return true
+			}
+		}
+	}
+	return false
+}
+
 func checkC16(c *Ctx, r *Report) {
 	const pkg = "fbb"
 	p := c.Pkg(pkg)
@@ -130,67 +152,29 @@ func checkC16(c *Ctx, r *Report) {
 
 	// ---- C16-guard
 	r.Rule("C16-guard", 2, "calls through the callback field are protected by a non-nil test")
+	// The condition is decided by g5Guard (ip_g5.go): a dominating non-nil test of the field - made
+	// directly or through a predicate function - or an early exit whose clause excludes a nil field
+	// under the conditions holding at the call; when the call lives in an unexported helper, at every
+	// call site of the helper. An early exit only counts when nothing has been written before it.
+	guard := &g5Guard{c: c, exitNote: "; nothing is written before that exit", acceptExit: func(exit *ssa.BasicBlock) (bool, string) {
+		exitRet := exit.Instrs[len(exit.Instrs)-1]
+		writes := false
+		eachInstr(exit.Parent(), func(_ *ssa.BasicBlock, _ int, in ssa.Instruction) {
+			if ci, isCall := in.(ssa.CallInstruction); isCall && c16Writes(ci, pkg, map[*ssa.Function]bool{}) {
+				if instrReaches(in, exitRet) {
+					writes = true
+				}
+			}
+		})
+		if writes {
+			return false, "the handshake has already written output when the missing callback is detected"
+		}
+		return true, ""
+	}}
 	for _, src := range sources {
 		fn := src.Parent()
-		fieldPath := pathOf(src.Common().Value)
 		o := r.Add("C16-guard", fnName(fn), "call "+c.exprAt(fn, src.Pos()), c.pos(src.Pos()))
-		isNilTest := func(cd Cond, wantNil bool) bool {
-			b, ok := cd.V.(*ssa.BinOp)
-			if !ok || !isNilConst(b.Y) || pathOf(b.X) != fieldPath {
-				return false
-			}
-			isNil := (b.Op == token.EQL) == cd.Truth
-			return (b.Op == token.EQL || b.Op == token.NEQ) && isNil == wantNil
-		}
-		here := condsAt(src.Block())
-		ok, why := false, ""
-		for _, cd := range here {
-			if isNilTest(cd, false) {
-				ok, why = true, "dominated by the non-nil edge of "+fieldPath
-			}
-		}
-		if !ok {
-			for _, g := range exitGuardsCached(fn) {
-				if !g.Head.Dominates(src.Block()) || g.Head == src.Block() || g.Exit.Dominates(src.Block()) || insideChain(g, src.Block()) {
-					continue
-				}
-				// not(c1 && ... && ck) with exactly one conjunct 'field == nil' and all the others known true here
-				nilIdx := -1
-				allKnown := true
-				for i, cj := range g.Conj {
-					if isNilTest(cj, true) {
-						nilIdx = i
-						continue
-					}
-					known := false
-					for _, h := range here {
-						if pathOf(h.V) == pathOf(cj.V) && h.Truth == cj.Truth {
-							known = true
-						}
-					}
-					if !known {
-						allKnown = false
-					}
-				}
-				if nilIdx >= 0 && allKnown {
-					// the exit must happen before anything is written
-					writes := false
-					exitRet := g.Exit.Instrs[len(g.Exit.Instrs)-1]
-					eachInstr(fn, func(_ *ssa.BasicBlock, _ int, in ssa.Instruction) {
-						if ci, isCall := in.(ssa.CallInstruction); isCall && c16Sinks[callName(ci.Common())] && callName(ci.Common()) != "errors.New" && callName(ci.Common()) != "fmt.Errorf" {
-							if instrReaches(in, exitRet) {
-								writes = true
-							}
-						}
-					})
-					if writes {
-						why = "the handshake has already written output when the missing callback is detected"
-						continue
-					}
-					ok, why = true, "the early exit at "+c.pos(exitRet.Pos())+" excludes 'challenge present and callback nil'; the challenge-present edge dominates this call; nothing is written before that exit"
-				}
-			}
-		}
+		ok, why := guard.nonNil(src, src.Common().Value, nil, nil, 0)
 		if ok {
 			o.OK("%s", why)
 		} else {
@@ -440,18 +424,44 @@ func checkC16(c *Ctx, r *Report) {
 		if nPair == 0 {
 			r.Add("C16-reply", where, "auxiliary 'address|response' pair", c.pos(fn.Pos())).Bad("no 'address|response' pair is written for auxiliary addresses")
 		}
-		// ;PR line
+		// ;PR line: the one call of writeSecureLoginResponse in sendHandshake or in a helper below it
+		// (g5Occurrences). For a helper the conditions are lifted to its call site: it must be the
+		// only one, and the helper's parameters are bound to the actual arguments (g5Env).
 		o := r.Add("C16-reply", where, ";PR response", c.pos(fn.Pos()))
-		prCalls := callsTo(fn, false, "fbb.writeSecureLoginResponse")
-		if len(prCalls) != 1 {
-			o.Bad("expected exactly one ;PR response to be written, found %d", len(prCalls))
+		prOcc := g5Occurrences(fn, "fbb.writeSecureLoginResponse", 3)
+		env := g5Env{}
+		liftWhy := ""
+		if len(prOcc) == 1 {
+			for _, site := range prOcc[0].chain {
+				callee := site.Common().StaticCallee()
+				sites, okS := c.g5Sites(callee)
+				env2, okE := env.with(callee, site)
+				switch {
+				case !okS || !okE:
+					liftWhy = "the ;PR line is written by " + callee.Name() + ", whose call sites cannot be enumerated"
+				case len(sites) != 1 || sites[0] != site:
+					liftWhy = "the ;PR line is written by " + callee.Name() + ", which is called from " + itoa(len(sites)) + " places: more than one ;PR response can be written"
+				default:
+					env = env2
+				}
+			}
+		}
+		if len(prOcc) != 1 {
+			o.Bad("expected exactly one ;PR response to be written, found %d", len(prOcc))
+		} else if liftWhy != "" {
+			o.Bad("%s", liftWhy)
 		} else {
-			ci := prCalls[0]
+			ci := prOcc[0].call
+			// branch conditions around the write: in its own function and around each call of the chain
+			conds := condsAt(ci.Block())
+			for _, site := range prOcc[0].chain {
+				conds = append(conds, condsAt(site.Block())...)
+			}
 			resp, isR := isResp(ci.Common().Args[1])
 			switch {
 			case !isR:
 				o.Bad("the ;PR line does not carry a secureLoginResponse")
-			case resp.Call.Args[0] != ssa.Value(chal):
+			case g5Resolve(resp.Call.Args[0], env) != ssa.Value(chal):
 				o.Bad("the ;PR response is not computed from the remote's challenge")
 			default:
 				src, okPw := pwOf(resp)
@@ -466,15 +476,19 @@ func checkC16(c *Ctx, r *Report) {
 					}
 				}
 				chalKnown := false
-				for _, cd := range condsAt(ci.Block()) {
-					if b, ok := cd.V.(*ssa.BinOp); ok && b.Op == token.NEQ && cd.Truth && b.X == ssa.Value(chal) {
+				for _, cd := range conds {
+					if b, ok := cd.V.(*ssa.BinOp); ok && (b.Op == token.NEQ && cd.Truth || b.Op == token.EQL && !cd.Truth) && g5Resolve(b.X, env) == ssa.Value(chal) {
 						chalKnown = true
 					}
+				}
+				forAddr := ""
+				if okPw {
+					forAddr, _ = g5Path(src.Common().Args[0], env, fn)
 				}
 				switch {
 				case !okPw:
 					o.Bad("the ;PR response is not computed from the callback's password")
-				case !strings.HasSuffix(pathOf(src.Common().Args[0]), ".localFW[0]"):
+				case forAddr != pathOf(fn.Params[0])+".localFW[0]":
 					o.Bad("the ;PR password is requested for %s, not for the session's own address (first local forwarder)", pathOf(src.Common().Args[0]))
 				case !errChecked:
 					o.Bad("the ;PR line is written although the password callback reported an error")
